@@ -3,30 +3,21 @@ package main
 import (
 	"fmt"
 	"os"
+	"runtime/pprof"
+	"strconv"
+	"strings"
+	"time"
 
 	"github.com/tsawler/tabula"
-	"verifharness/fw"
-	"verifharness/gen/pdfw"
 )
 
 func main() {
-	i := 5
-	fmt.Sscan(os.Args[1], &i)
-	r := fw.RandFor(1, "C03", "doc", i)
-	g := pdfw.GenDoc(r, pdfw.DocOpts{MinPages: 1, MaxPages: 5, MaxLines: 10, MaxFonts: 3, TreeDepth: 1 + r.Intn(3), Inherit: "mixed", NoEmptyPages: true})
-	lay := pdfw.RandomLayout(r, 1)
-	b := pdfw.Build(r.Int63(), lay, []*pdfw.Doc{g.Doc})
-	os.WriteFile("/tmp/dbg.pdf", b.Bytes, 0o644)
-	seen := map[string]int{}
-	for k := 0; k < 30; k++ {
-		s, _, err := tabula.Open("/tmp/dbg.pdf").ToMarkdown()
-		if err != nil {
-			s = "ERR " + err.Error()
-		}
-		if _, ok := seen[s]; !ok {
-			os.WriteFile(fmt.Sprintf("/tmp/dbg.md.%d", len(seen)), []byte(s), 0o644)
-		}
-		seen[s]++
-	}
-	fmt.Println("distinct outputs:", len(seen))
+	n, _ := strconv.Atoi(os.Args[1])
+	s := "<html><body><p>x</p>" + strings.Repeat("<"+os.Args[2]+">", n) + "hello" + "</body></html>"
+	f, _ := os.Create("/tmp/cpu.prof")
+	pprof.StartCPUProfile(f)
+	t := time.Now()
+	_, _, err := tabula.FromHTMLString(s).Chunks()
+	fmt.Println("Chunks", n, time.Since(t), err)
+	pprof.StopCPUProfile()
 }
